@@ -905,6 +905,8 @@ def check_inv_loop_step(rep, fn, tag, modulus, rp):
             raise core.Unsupported("loop body returned")
         return dict(a=a, lm=lm, hm=hm, k1=k1, k2=k2, low=low, high=high), st2
 
+    rp0 = rp
+
     def on_step(pth):
         rep.paths += 1
         if pth.kind != "ret":
@@ -913,6 +915,15 @@ def check_inv_loop_step(rep, fn, tag, modulus, rp):
         pre, st2 = pth.value
         lm2, hm2, low2, high2 = (SymZ.lift(st2[k]) for k in ("lm", "hm", "low", "high"))
         a = pre["a"]
+        # candidate inputs for replay: a state with remainder pair (high, low) is reached from a = high or a = low
+        rp = dict(rp0)
+        try:
+            sr, sm = pth.ctx.satisfiable(timeout_ms=10000)
+            if sr == "sat":
+                cands = [sm.eval(pre[k].t, model_completion=True).as_long() for k in ("high", "low")]
+                rp = {"kind": rp0["kind"], "args": dict(rp0["args"], candidates=[[str(c), str(n)] for c in cands])}
+        except Exception:
+            pass
         r = pre["high"].t / pre["low"].t
         # invariant: lm'*a - low' = (k2 - r*k1) * n  and  hm'*a - high' = k1 * n   (identities over Z)
         t1 = lm2.t * a.t - low2.t - (pre["k2"].t - r * pre["k1"].t) * n
@@ -965,3 +976,90 @@ def prime_field_inv_loop_step(rep, tier):
     for curve in CURVES:
         p = getattr(f, curve + "_FQ").field_modulus
         check_inv_loop_step(rep, u.prime_field_inv, "prime_field_inv mod p(%s)" % curve, p, {"kind": "c08_inv", "args": {"which": "prime_field_inv"}})
+
+
+# ---------------------------------------------------------------------------
+# C08.d  FQP inversion / division at the real primes on sparse symbolic supports
+
+def _support_policy(support_names):
+    def pol(live):
+        # fork only on "support variable == 0"; every other non-identically-zero branch polynomial: generic
+        if len(live) == 1:
+            v = ring._single_atom(live[0])
+            if v is not None and str(v) in support_names:
+                return "both"
+        return "generic"
+    return pol
+
+
+def _check_fqp_inv(rep, impl, curve, deg, K, M, supports):
+    p = K.field_modulus
+    tag = "%s FQ%d %s" % (impl, deg, curve)
+    rep.encoded(K.inv, K.__truediv__, K.__div__, K.__mul__)
+    rep.stub("prime_field_inv(a, p) -> inv0 contract in ring mode (a^-1 as a fraction; forks on a == 0)")
+    for S in supports:
+        names = {"a%d" % i for i in S}
+        rp = {"kind": "c08_fqp_inv", "args": {"impl": impl, "curve": curve, "deg": deg, "support": list(S)}}
+
+        def fn(R, S=S):
+            a = [R.atom("a%d" % i) if i in S else 0 for i in range(deg)]
+            y = [R.atom("y1") if i == 1 else 0 for i in range(deg)]
+            with world.patched(M, prime_field_inv=inv_stub_ring):
+                x = K(a)
+                xi = x.inv()
+                prod = x * xi
+                if deg == 2:
+                    q = (K(y) / x) * x
+                else:
+                    q = (K(y) / x, K(y) * xi)
+            return a, y, cf(xi), cf(prod), (cf(q) if deg == 2 else (cf(q[0]), cf(q[1])))
+
+        n_paths = 0
+        for pth, R in ring.run_paths(fn, lambda: Ring(p, policy=_support_policy(names)), max_paths=200):
+            rep.paths += 1
+            n_paths += 1
+            path = lits_summary(R)
+            zeroed = [str(v) for v, val in R.subst]
+            if pth.kind != "ret":
+                rep.fail("%s inv raised %r (support %s, zeroed %s)" % (tag, pth.value, S, zeroed), rp, detail=str(path)[:500])
+                continue
+            a, y, xi, prod, q = pth.value
+            all_zero = len(zeroed) == len(S)
+            one = [1] + [0] * (deg - 1)
+            if all_zero:
+                _eq_coeffs(rep, R, xi, [0] * deg, "%s support %s: inv(0) = 0 (inv0)" % (tag, S), rp, "all support variables zero")
+            else:
+                _eq_coeffs(rep, R, prod, one, "%s support %s zeroed %s: x * inv(x) = 1" % (tag, S, zeroed), rp, path[-3:])
+                if deg == 2:
+                    _eq_coeffs(rep, R, q, y, "%s support %s zeroed %s: (y / x) * x = y" % (tag, S, zeroed), rp, path[-3:])
+                else:
+                    # y / x is y * inv(x); with x*inv(x) = 1 and associativity/commutativity (fqp_ring_*) this gives (y/x)*x = y
+                    _eq_coeffs(rep, R, q[0], q[1], "%s support %s zeroed %s: y / x = y * inv(x)" % (tag, S, zeroed), rp, path[-3:])
+            generic = [core._short(c, 80) for l in R.lits if not l[1] and l[2] != "assumed" for c in l[0]]
+            rep.note("%s support %s zeroed %s: claim excludes the zero set of %d branch polynomials" % (tag, S, zeroed, len(generic)))
+        if n_paths < 2:
+            rep.fail("%s support %s: only %d paths (expected at least the generic and the all-zero path)" % (tag, S, n_paths), rp)
+    rep.bound("inputs with the listed coefficient supports, outside the zero set of the branch polynomials met on the generic path (other loci: small-field tier)")
+
+
+def _mk_fqp_inv(impl, curve, deg):
+    def f(rep, tier):
+        if deg == 2:
+            supports = [(0,), (1,), (0, 1)]
+        elif tier == "quick":
+            supports = [(i,) for i in range(7)]
+        else:
+            supports = [(i,) for i in range(10)] + [(0, 6)]
+        for i, c, K, M in fqp_classes(deg):
+            if i == impl and c == curve:
+                _check_fqp_inv(rep, i, c, deg, K, M, supports)
+    return f
+
+
+for _impl in ("ref", "opt"):
+    for _curve in CURVES:
+        for _deg in (2, 12):
+            obligation("C08", "fqp_inv_%s_%s_fq%d" % (_impl, _curve, _deg), timeout=1200,
+                       bound=("FQ2: all elements (both coefficients symbolic, every zero pattern)" if _deg == 2 else
+                              "FQ12: coefficient supports {i}, i = 0..6 (quick), i = 0..9 and {0,6} (thorough); supports {10}, {11}, other pairs and denser supports exceed the time/memory budget at the real primes (rational functions without gcd cancellation) and are claimed only in the small-field tier; real prime; generic path + zeroed support variables"))(
+                _mk_fqp_inv(_impl, _curve, _deg))
